@@ -269,6 +269,59 @@ func main() {
 		}
 		run.NonTrivial("S3-nextupdate-future")
 	})
+	// S3c: pre-produced responses (thisUpdate long ago): nextUpdate already past and duration 0 =>
+	// nothing is cached; nextUpdate near => lifetime counts from now, not from thisUpdate
+	goRun(func() {
+		for _, v := range []struct {
+			name string
+			this time.Duration
+			next time.Duration
+		}{{"this-48h-ago.next-1h-ago", -48 * time.Hour, -time.Hour}, {"this-30d-ago.next-1s-ago", -30 * 24 * time.Hour, -time.Second}} {
+			chk := newChecker(true, 0)
+			serial := pki.NextSerial()
+			chain := w.Leaf(serial, nil, []string{w.OCSP.URL("/a")})
+			now := time.Now()
+			e.set("/a", serial, world.OCSPStatus{Status: ocsp.Good, ThisUpdate: now.Add(v.this), NextUpdate: now.Add(v.next)}, "")
+			_, err1 := chk.IsRevoked(chain[0], [][]*x509.Certificate{chain})
+			e.set("/a", serial, world.OCSPStatus{Status: ocsp.Revoked, ThisUpdate: now.Add(v.this), NextUpdate: now.Add(v.next)}, "")
+			h := e.hits("/a", serial)
+			s2, err2 := chk.IsRevoked(chain[0], [][]*x509.Certificate{chain})
+			run.Eval(2)
+			if err1 != nil {
+				run.Inconclusive("S3c: first query failed: " + err1.Error())
+				continue
+			}
+			if e.hits("/a", serial) == h || err2 != nil || s2 == nil || !s2.Revoked {
+				run.Violation("S3c.stale-response-cached."+v.name, fmt.Sprintf("response with %s and default_cache_duration 0 was cached: second call hits=%d err=%v revoked=%v although the responder now says revoked", v.name, e.hits("/a", serial)-h, err2, s2 != nil && s2.Revoked), nil)
+				continue
+			}
+			run.NonTrivial("S3c " + v.name)
+		}
+		// near future nextUpdate with an old thisUpdate: requested lifespan bounded from now
+		chk := newChecker(true, 0)
+		serial := pki.NextSerial()
+		chain := w.Leaf(serial, nil, []string{w.OCSP.URL("/a")})
+		tCall := time.Now()
+		nu := tCall.Add(3 * time.Second).Truncate(time.Second)
+		e.set("/a", serial, world.OCSPStatus{Status: ocsp.Good, ThisUpdate: tCall.Add(-72 * time.Hour), NextUpdate: nu}, "")
+		_, _ = chk.IsRevoked(chain[0], [][]*x509.Certificate{chain})
+		suffix := "_" + serial.String()
+		found := false
+		cache2go.Cache("ocsp_client").Foreach(func(key interface{}, item *cache2go.CacheItem) {
+			ks, _ := key.(string)
+			if len(ks) >= len(suffix) && ks[len(ks)-len(suffix):] == suffix {
+				found = true
+				limit := nu.Sub(tCall) + 900*time.Second + time.Second
+				if item.LifeSpan() > limit {
+					run.Violation("S3c.old-thisupdate.lifespan-too-long", fmt.Sprintf("thisUpdate 72 h ago, nextUpdate in 3 s: requested lifespan %v > %v", item.LifeSpan(), limit), nil)
+				}
+			}
+		})
+		run.Eval(1)
+		if found {
+			run.NonTrivial("S3c old thisUpdate, near nextUpdate")
+		}
+	})
 	// S1: identity — issuers A and B, equal subject and serial
 	goRun(func() {
 		wB := world.New("C14-B")
